@@ -761,12 +761,56 @@ def structure_roles(ctx):
                 o = "fwd" if (ea, ec) == ("source", "target") else ("rev" if (ea, ec) == ("target", "source") else "?")
                 for s in fl.sources_operand(b, t["args"][0]):
                     orient.setdefault(s, set()).add(o)
+    # structures built by a private helper from an edge iterator: orientation = what each call site's iterator yields
+    helper_orient = {}
+    breach = m.reach(build.id)
+    for bid in breach:
+        b = fb.bodies[bid]
+        H = fb.bodies.get(b.root)
+        if H is None or H.id == build.id or H.kind != "fn":
+            continue
+        for bb, t in b.calls():
+            if callee_path(t) not in ("daggy::Dag::<N, E, Ix>::add_edge", "daggy::Dag::<N, E, Ix>::update_edge"):
+                continue
+            if "daggy::Dag<()" not in (t["args"][0].get("pl") or {}).get("ty", ""):
+                continue
+            sa = fl.sources_operand(b, t["args"][1], (), "prov@" + H.id)
+            sc = fl.sources_operand(b, t["args"][2], (), "prov@" + H.id)
+            if len(sa) != 1 or len(sc) != 1:
+                continue
+            pa, pc = list(sa)[0], list(sc)[0]
+            if not (pa.kind == "param" and pc.kind == "param" and pa[1] == H.id and pc[1] == H.id and pa[2] == pc[2]):
+                continue
+            for (cb, cbb, ct) in fl.call_sites().get(H.id, []):
+                if cb.id not in breach or pa[2] - 1 >= len(ct["args"]):
+                    continue
+                def ends(path_):
+                    ss = fl.sources_operand(cb, ct["args"][pa[2] - 1], tuple(path_))
+                    if ss and all(x.kind == "alloc" and x[4].endswith("Edge::<E, Ix>::source") for x in ss):
+                        return "source"
+                    if ss and all(x.kind == "alloc" and x[4].endswith("Edge::<E, Ix>::target") for x in ss):
+                        return "target"
+                    return None
+                ea, ec = ends(pa[3]), ends(pc[3])
+                o = "fwd" if (ea, ec) == ("source", "target") else ("rev" if (ea, ec) == ("target", "source") else "?")
+                helper_orient.setdefault((cb.id, cbb), set()).add(o)
     roles = {"fwd": None, "rev": None, "graph": None, "counts": None, "ranks": None, "build": build, "orient": orient}
     for fi, op in enumerate(agg["rv"]["ops"]):
         srcs = fl.sources_operand(build, op)
         os_ = set()
         for s in srcs:
             os_ |= orient.get(s, set())
+        if not os_ and op["k"] != "const" and not op["pl"]["p"]:
+            l_ = op["pl"]["l"]
+            for _hop in range(5):
+                d = get_defs(build).unique_full(l_)
+                if d and d[0] == "call":
+                    os_ = set(helper_orient.get((build.id, d[1]), set()))
+                    break
+                if d and d[0] == "stmt" and d[3]["rv"]["k"] == "use" and d[3]["rv"]["op"]["k"] in ("move", "copy") and not d[3]["rv"]["op"]["pl"]["p"]:
+                    l_ = d[3]["rv"]["op"]["pl"]["l"]
+                    continue
+                break
         ty = (op.get("pl") or {}).get("ty", "")
         if os_ == {"fwd"}:
             roles["fwd"] = fi
@@ -1732,6 +1776,14 @@ def interrupt_mapper(ctx):
         if len(f["inputs"]) == 1 and "interruptible::PollOutcome<" in f["inputs"][0]["s"] and f["output"]["k"] == "tuple" \
                 and "bool" in f["output"]["s"]:
             return ctx.fb.bodies.get(f["id"])
+    # ... or into a private struct { Option<id>, bool } (e.g. a `From<PollOutcome<id>>` impl)
+    for f in ctx.fb.fns.values():
+        if len(f["inputs"]) == 1 and "interruptible::PollOutcome<" in f["inputs"][0]["s"] and f["output"].get("k") == "adt":
+            adt = ctx.fb.adts.get(f["output"].get("def") or "")
+            if adt and len(adt["variants"]) == 1:
+                tys = [x["ty"]["s"] for x in adt["variants"][0]["fields"]]
+                if len(tys) == 2 and "bool" in tys and any(x.startswith("std::option::Option<") for x in tys) and f["id"] in ctx.fb.bodies:
+                    return ctx.fb.bodies[f["id"]]
     return None
 
 
@@ -1766,11 +1818,15 @@ def S5_interrupt_map(ctx, rule):
     desc = []
     good = True
     for kind, rbb, rsi, x in defs.of(0):
-        if kind != "stmt" or x["rv"]["k"] != "agg" or x["rv"]["ak"] != "tuple" or len(x["rv"]["ops"]) != 2:
+        if kind != "stmt" or x["rv"]["k"] != "agg" or x["rv"]["ak"] not in ("tuple", "adt") or len(x["rv"]["ops"]) != 2:
             good = False
-            desc.append("result is not built as a (id, flag) tuple at %s" % b.loc(rbb))
+            desc.append("result is not built as a (id, flag) pair at %s" % b.loc(rbb))
             continue
         idop, flag = x["rv"]["ops"]
+        def _is_bool(o):
+            return (o.get("ty") == "bool") if o["k"] == "const" else (o["pl"]["ty"] == "bool")
+        if _is_bool(idop) and not _is_bool(flag):
+            idop, flag = flag, idop
         watch = [o["pl"]["l"] for o in (idop, flag) if o["k"] != "const" and not o["pl"]["p"]]
         sym_bb = {}
         pcs = path_conditions(b, rbb, sym_bb=sym_bb, watch=watch)
